@@ -8,6 +8,7 @@ import (
 	"sync"
 
 	format "github.com/go-git/go-git/v6/plumbing/format/config"
+	plumbhash "github.com/go-git/go-git/v6/plumbing/hash"
 )
 
 // ObjectHasher computes hashes for Git objects. A few differences
@@ -60,7 +61,9 @@ func FromObjectFormat(f format.ObjectFormat) *ObjectHasher {
 	case format.SHA256:
 		hasher = crypto.SHA256.New()
 	default:
-		hasher = crypto.SHA1.New()
+		// go-git's own registry, whose SHA1 default is the collision
+		// detecting sha1cd; Go's crypto registry only knows crypto/sha1.
+		hasher = plumbhash.New(crypto.SHA1)
 		f = format.UnsetObjectFormat
 	}
 	return &ObjectHasher{
